@@ -723,7 +723,7 @@ pub mod outbound {
 
 		/// `fail_htlc`; `permanent` selects a failure from the recipient
 		/// (`IncorrectPaymentDetails`, encrypted with the hop's shared secret) instead of a
-		/// locally generated `TemporaryChannelFailure`.
+		/// locally generated `OnChainTimeout` (not permanent).
 		pub fn fail(
 			&self, id: PaymentId, hash: PaymentHash, session_priv: [u8; 32], scid: u64,
 			permanent: bool,
@@ -748,7 +748,7 @@ pub mod outbound {
 						attribution_data: pkt.attribution_data,
 					})
 				} else {
-					HTLCFailReason::from_failure_code(LocalHTLCFailureReason::TemporaryChannelFailure)
+					HTLCFailReason::from_failure_code(LocalHTLCFailureReason::OnChainTimeout)
 				};
 				let logger = WithContext::from(&NoLog, None, None, None);
 				let mut action = None;
@@ -891,6 +891,70 @@ pub mod outbound {
 
 		pub fn our_node_id(&self) -> PublicKey {
 			self.keys.get_node_id(Recipient::Node).unwrap()
+		}
+	}
+}
+
+/// `ln::peer_channel_encryptor::PeerChannelEncryptor` (the module is crate-private unless
+/// `cfg(fuzzing)`), re-exposed unchanged for the C15 differential: BOLT-8 acts and transport
+/// frames of the real cipher layer are compared byte for byte with the formal model.
+pub mod noise {
+	#![allow(missing_docs)]
+	use crate::ln::peer_channel_encryptor::{MessageBuf, PeerChannelEncryptor};
+	use crate::sign::NodeSigner;
+	use bitcoin::secp256k1::{self, PublicKey, Secp256k1, SecretKey};
+
+	pub struct Enc(PeerChannelEncryptor);
+
+	impl Enc {
+		pub fn new_outbound(their_node_id: PublicKey, ephemeral_key: SecretKey) -> Enc {
+			Enc(PeerChannelEncryptor::new_outbound(their_node_id, ephemeral_key))
+		}
+
+		pub fn new_inbound<NS: NodeSigner>(node_signer: &NS) -> Enc {
+			Enc(PeerChannelEncryptor::new_inbound(node_signer))
+		}
+
+		pub fn get_act_one<C: secp256k1::Signing>(&mut self, secp_ctx: &Secp256k1<C>) -> [u8; 50] {
+			self.0.get_act_one(secp_ctx)
+		}
+
+		pub fn process_act_one_with_keys<C: secp256k1::Signing, NS: NodeSigner>(
+			&mut self, act_one: &[u8], node_signer: &NS, our_ephemeral: SecretKey,
+			secp_ctx: &Secp256k1<C>,
+		) -> Result<[u8; 50], ()> {
+			self.0
+				.process_act_one_with_keys(act_one, node_signer, our_ephemeral, secp_ctx)
+				.map_err(|_| ())
+		}
+
+		pub fn process_act_two<NS: NodeSigner>(
+			&mut self, act_two: &[u8], node_signer: &NS,
+		) -> Result<([u8; 66], PublicKey), ()> {
+			self.0.process_act_two(act_two, node_signer).map_err(|_| ())
+		}
+
+		pub fn process_act_three(&mut self, act_three: &[u8]) -> Result<PublicKey, ()> {
+			self.0.process_act_three(act_three).map_err(|_| ())
+		}
+
+		/// `MessageBuf::from_encoded` followed by `encrypt_buffer`; `encoded_msg` is the message
+		/// type followed by the message contents.
+		pub fn encrypt_buffer(&mut self, encoded_msg: &[u8]) -> Result<Vec<u8>, ()> {
+			let buf = MessageBuf::from_encoded(encoded_msg)?;
+			Ok(self.0.encrypt_buffer(buf))
+		}
+
+		pub fn decrypt_length_header(&mut self, msg: &[u8]) -> Result<u16, ()> {
+			self.0.decrypt_length_header(msg).map_err(|_| ())
+		}
+
+		pub fn decrypt_message(&mut self, msg: &mut [u8]) -> Result<(), ()> {
+			self.0.decrypt_message(msg).map_err(|_| ())
+		}
+
+		pub fn is_ready_for_encryption(&self) -> bool {
+			self.0.is_ready_for_encryption()
 		}
 	}
 }
